@@ -27,7 +27,9 @@
 (*                                   key that was sent                     *)
 (*                        "fallback" status, headers (without Date) and    *)
 (*                                   body IDENTICAL to those of the same   *)
-(*                                   request on an unknown path (`twin`)   *)
+(*                                   request on an unknown path (`twin`);  *)
+(*                                   with the echo backend, the request    *)
+(*                                   target it saw is the path sent        *)
 (*                        "either"   one of the two                        *)
 (*                        "health",                                        *)
 (*                        "version"  anything but a 101                    *)
@@ -87,10 +89,21 @@ Good101(r) ==
   /\ Len(r.accept) = 1 /\ Len(r.accept_calc) >= 1
   /\ \E i \in 1 .. Len(r.accept_calc) : r.accept[1] = r.accept_calc[i]
 
+UriOf(p, q) == IF q = "" THEN p ELSE p \o "?" \o q
+\* seen_uri: the request target the echo backend reported (empty when the answer did not come from it); it is the
+\* one thing that legitimately differs between a request and its twin: each must be the path that was sent
+SameTarget(r) ==
+  /\ Len(r.seen_uri) = Len(r.twin.seen_uri) /\ Len(r.seen_uri) <= 1
+  \* (a CONNECT request carries no path on the wire: its target is the authority, RFC 9110 9.3.6)
+  /\ (Len(r.seen_uri) = 1 /\ r.sent.method # "CONNECT") =>
+        /\ r.seen_uri[1] = UriOf(r.sent.path, r.sent.query)
+        /\ r.twin.seen_uri[1] = UriOf(r.twin.path, r.sent.query)
+  /\ (Len(r.seen_uri) = 1 /\ r.sent.method = "CONNECT") => r.seen_uri[1] = r.twin.seen_uri[1]
 SameAsTwin(r) ==
   /\ r.status = r.twin.status
   /\ r.headers = r.twin.headers
   /\ r.body = r.twin.body
+  /\ SameTarget(r)
 
 MatchCase(r) ==
   /\ WellFormed(r)
@@ -130,7 +143,8 @@ JoinDev(r, i) ==
   ELSE LET rest == JoinDev(r, i + 1) IN
        IF IsDev(r, Order[i]) THEN (IF rest = "" THEN DevName(r, Order[i]) ELSE DevName(r, Order[i]) \o "+" \o rest) ELSE rest
 
-Differs(r) == IF r.status # r.twin.status THEN "status" ELSE IF r.headers # r.twin.headers THEN "headers" ELSE "body"
+Differs(r) == IF r.status # r.twin.status THEN "status" ELSE IF r.headers # r.twin.headers THEN "headers"
+              ELSE IF r.body # r.twin.body THEN "body" ELSE "target"
 
 Sig(r) ==
   IF r.ev = "selftest" THEN "other:selftest"
